@@ -268,13 +268,49 @@ def analyse_handshake(func):
     return True
 
 
-@generator("GenHandshake", "Pyro5/server.py", "Pyro5/svr_threads.py", "Pyro5/svr_multiplex.py", "Pyro5/protocol.py", "Pyro5/serializers.py")
+def analyse_client(client_mod):
+    """Proxy.__pyroCreateConnection: the handshake answer's payload is decoded by `X.loads(msg.data)`; is X (re)bound, in
+    the same block and before that call, to serializers.serializers_by_id[msg.serializer_id] — the serializer named in the
+    ANSWER's header — or is it still the serializer the proxy sent its CONNECT with?"""
+    cls = find_class(client_mod, "Proxy")
+    funcs = [n for n in cls.body if isinstance(n, ast.FunctionDef) and n.name.endswith("__pyroCreateConnection")]
+    need(len(funcs) == 1, "Proxy.__pyroCreateConnection not found exactly once")
+    hits = []
+
+    def scan_block(stmts):
+        for k, st in enumerate(stmts):
+            for sub in ast.walk(st) if not isinstance(st, (ast.If, ast.Try, ast.For, ast.While, ast.With, ast.FunctionDef)) else []:
+                if is_call_to(sub, "loads") and isinstance(sub.func.value, ast.Name) and len(sub.args) == 1 \
+                        and attr_chain(sub.args[0]) is not None and attr_chain(sub.args[0])[-1] == "data":
+                    var, msgvar = sub.func.value.id, attr_chain(sub.args[0])[0]
+                    binds = [b for b in stmts[:k] if isinstance(b, ast.Assign) and any(isinstance(t, ast.Name) and t.id == var for t in b.targets)]
+                    if not binds:
+                        hits.append(False)
+                        continue
+                    v = binds[-1].value
+                    ok = isinstance(v, ast.Subscript) and attr_chain(v.value) == ["serializers", "serializers_by_id"] \
+                        and attr_chain(v.slice) == [msgvar, "serializer_id"]
+                    need(ok, "__pyroCreateConnection: unrecognised serializer binding before loads(%s.data)" % msgvar)
+                    hits.append(True)
+            for fld in ("body", "orelse", "finalbody"):
+                if hasattr(st, fld):
+                    scan_block(getattr(st, fld))
+            for h in getattr(st, "handlers", []):
+                scan_block(h.body)
+    scan_block(funcs[0].body)
+    need(len(hits) == 1, "__pyroCreateConnection: expected exactly one <serializer>.loads(msg.data), found %d" % len(hits))
+    return hits[0]
+
+
+@generator("GenHandshake", "Pyro5/server.py", "Pyro5/svr_threads.py", "Pyro5/svr_multiplex.py", "Pyro5/protocol.py", "Pyro5/serializers.py", "Pyro5/client.py")
 def gen_handshake(tree):
     server, _ = parse(tree, "Pyro5/server.py")
     proto, _ = parse(tree, "Pyro5/protocol.py")
     sers, _ = parse(tree, "Pyro5/serializers.py")
     thr, _ = parse(tree, "Pyro5/svr_threads.py")
     mux, _ = parse(tree, "Pyro5/svr_multiplex.py")
+    client_mod, _ = parse(tree, "Pyro5/client.py")
+    client_reply_ser = analyse_client(client_mod)
 
     def const(name):
         v = int_expr(module_assign(proto, name))
@@ -363,10 +399,12 @@ def gen_handshake(tree):
     out += "Definition marshal_id : N := %s.\n" % cN(marshal_id)
     out += "(* pool exhausted: events() -> denyConnection(%r) -> _handshake(denied_reason=...) raised before the validator; socket closed; no request loop *)\n" % deny_reason.replace("*)", "* )")
     out += "Definition deny_checked : bool := true.\n"
+    out += "(* Proxy.__pyroCreateConnection decodes the handshake answer with serializers_by_id[<answer>.serializer_id] *)\n"
+    out += "Definition client_uses_reply_ser : bool := %s.\n" % cbool(client_reply_ser)
     info = {"first_types": [vals[n] for n in first_names], "later_types": [vals[n] for n in later_names],
             "first_names": first_names, "later_names": later_names, "ok_only": ok_only,
             "thread_gate": thread_loop_guarded and thread_hc_guarded, "mux_gate": mux_reg_guarded and mux_hc_guarded,
-            "marshal_id": marshal_id, "deny_reason": deny_reason, "t_connect": vals["MSG_CONNECT"], "t_invoke": vals["MSG_INVOKE"], "t_ping": vals["MSG_PING"],
+            "marshal_id": marshal_id, "deny_reason": deny_reason, "client_uses_reply_ser": client_reply_ser, "t_connect": vals["MSG_CONNECT"], "t_invoke": vals["MSG_INVOKE"], "t_ping": vals["MSG_PING"],
             "ast_sha": {"_handshake": ast_sha(hs), "handleConnection": ast_sha(hc), "__call__": ast_sha(job_call),
                         "events": ast_sha(ev), "_handleConnection": ast_sha(mhc)}}
     return out, info
